@@ -295,7 +295,11 @@ pub fn run_with(gid: &str, input: &str, with_indented: bool, parse: impl Fn(Mode
     let huge = input.len() > 20000;
     let (advs, fails) = if huge { (String::from("[]"), String::from("[]")) } else { jverif(&verif) };
     let events = if huge { Vec::new() } else { events };
-    let cps: Vec<String> = input.chars().map(|c| (c as u32).to_string()).collect();
+    let cps: Vec<String> = if input.len() > (1usize << 31) {
+        vec![String::from("-4")] // a synthetic input: described by its case line, not listed
+    } else {
+        input.chars().map(|c| (c as u32).to_string()).collect()
+    };
     format!(
         "{{\"g\":{},\"inp\":[{}],\"ctx_calls\":{},\"res\":{},\"rec_same\":{},\"ind_same\":{},\"again_same\":{},\"rec\":{},\"ind\":{},\"events\":{},\"user\":{},\"advs\":{},\"fails\":{}}}",
         jstr(gid),
@@ -324,6 +328,16 @@ pub fn run_with(gid: &str, input: &str, with_indented: bool, parse: impl Fn(Mode
 }
 
 pub fn unhex(s: &str) -> String {
+    // "@4g:<hex byte>:<hex tail>": that byte 2^32 + 5 times, then the tail (offsets beyond 32 bits)
+    if let Some(rest) = s.strip_prefix("@4g:") {
+        let mut it = rest.split(':');
+        let b = u8::from_str_radix(it.next().expect("byte"), 16).expect("hex");
+        let tail = unhex(it.next().unwrap_or(""));
+        let n = (1usize << 32) + 5;
+        let mut v = vec![b; n];
+        v.extend_from_slice(tail.as_bytes());
+        return String::from_utf8(v).expect("utf8 input");
+    }
     let bytes: Vec<u8> = (0..s.len() / 2)
         .map(|i| u8::from_str_radix(&s[2 * i..2 * i + 2], 16).expect("hex"))
         .collect();
@@ -361,6 +375,9 @@ pub fn runner_main(table: &[(&'static str, CaseFn)]) {
         .append(true)
         .open(&args[2])
         .expect("out file");
+    // every input is parsed out of ONE reused buffer: consecutive inputs share their address (and, often, their
+    // length) - anything a parser remembers about "the input at this address" shows as a wrong result
+    let mut buf = String::with_capacity(1 << 20);
     for (i, line) in std::io::BufReader::new(f).lines().enumerate() {
         if i < skip {
             continue;
@@ -368,12 +385,23 @@ pub fn runner_main(table: &[(&'static str, CaseFn)]) {
         let line = line.expect("line");
         let mut it = line.split('\t');
         let gid = it.next().unwrap();
-        let input = unhex(it.next().unwrap_or(""));
+        let owned;
+        let input: &str = {
+            let fresh = unhex(it.next().unwrap_or(""));
+            if fresh.len() <= (1 << 20) {
+                buf.clear();
+                buf.push_str(&fresh);
+                &buf
+            } else {
+                owned = fresh;
+                &owned
+            }
+        };
         // announce the case first: if the process dies, the driver knows which case it was
         let _ = writeln!(out, "{{\"start\":{}}}", i);
         let _ = out.flush();
         let js = match map.get(gid) {
-            Some(f) => f(gid, &input, with_indented),
+            Some(f) => f(gid, input, with_indented),
             None => format!("{{\"g\":{},\"missing\":true}}", jstr(gid)),
         };
         let _ = writeln!(out, "{}", js);
@@ -396,14 +424,23 @@ fn threads_main(map: &std::collections::HashMap<&str, CaseFn>, cases: &str, out:
             (it.next().unwrap().to_string(), unhex(it.next().unwrap_or("")))
         })
         .collect();
-    let run = |i: usize| -> String {
+    // (each thread parses out of its own reused buffer, see runner_main)
+    let run = |i: usize, buf: &mut String| -> String {
         let (g, inp) = &list[i];
+        let text: &str = if inp.len() <= (1 << 20) {
+            buf.clear();
+            buf.push_str(inp);
+            buf
+        } else {
+            inp
+        };
         match map.get(g.as_str()) {
-            Some(f) => f(g, inp, false),
+            Some(f) => f(g, text, false),
             None => String::from("{\"missing\":true}"),
         }
     };
-    let seq: Vec<String> = (0..list.len()).map(run).collect();
+    let mut buf0 = String::with_capacity(1 << 20);
+    let seq: Vec<String> = (0..list.len()).map(|i| run(i, &mut buf0)).collect();
     let barrier = std::sync::Barrier::new(n);
     let len = list.len();
     let results: Vec<(Vec<(usize, String)>, Vec<(usize, String)>)> = std::thread::scope(|s| {
@@ -414,6 +451,7 @@ fn threads_main(map: &std::collections::HashMap<&str, CaseFn>, cases: &str, out:
                 std::thread::Builder::new().stack_size(256 << 20).spawn_scoped(s, move || {
                     let mut mismatches = Vec::new();
                     let mut first_round = Vec::new();
+                    let mut buf = String::with_capacity(1 << 20);
                     barrier.wait();
                     for r in 0..rounds {
                         // a different walk through the cases per thread and round
@@ -424,7 +462,7 @@ fn threads_main(map: &std::collections::HashMap<&str, CaseFn>, cases: &str, out:
                         }
                         for j in 0..len {
                             let i = (start + step * j) % len;
-                            let js = run(i);
+                            let js = run(i, &mut buf);
                             if js != seq[i] && mismatches.len() < 5 {
                                 mismatches.push((i, js.clone()));
                             }
